@@ -13,7 +13,6 @@ import (
 	"fmt"
 	"sort"
 
-	"github.com/nspcc-dev/neofs-node/verifharness/ev"
 	"pgregory.net/rapid"
 )
 
@@ -398,46 +397,4 @@ func genCase(t *rapid.T) caseSpec {
 	sort.Ints(c.IR)
 	sort.Ints(c.CN)
 	return c
-}
-
-// hasReqFilterForOp: some record of the table for the operation has a filter
-// over request X-headers.
-func hasReqFilterForOp(tb *tableSpec, op string) bool {
-	if tb == nil {
-		return false
-	}
-	for _, r := range tb.Records {
-		if r.Op != op {
-			continue
-		}
-		for _, f := range r.Filters {
-			if f.From == "req" {
-				return true
-			}
-		}
-	}
-	return false
-}
-
-// isBinXHdrClass: GET/HEAD whose stored header reaches the second eACL stage
-// in binary form while the applicable table has rules over request X-headers.
-func isBinXHdrClass(c caseSpec) bool {
-	if (c.Req != kGet && c.Req != kHead) || c.RespForm != 1 {
-		return false
-	}
-	if c.Bearer != nil && hasReqFilterForOp(&c.Bearer.Table, c.Req) {
-		return true
-	}
-	return hasReqFilterForOp(c.Stored, c.Req)
-}
-
-// excludeKnown removes, by construction, the input classes of findings listed
-// as open in known_findings.json; it reports how many classes were switched off.
-func excludeKnown(c *caseSpec) int64 {
-	var n int64
-	if ev.IsOpen("C28", fpBinXHdr) && isBinXHdrClass(*c) {
-		c.RespForm = 0
-		n++
-	}
-	return n
 }
